@@ -355,6 +355,12 @@ var genbankLocusParser = pars.Seq(
 	}),
 ).Children(1, 2, 4, 7, 9, 11, 13)
 
+// fieldError is the error of a field that was recognised by its name and
+// could not be read: no other parser gets to try the field.
+type fieldError struct{ error }
+
+func (e fieldError) Unwrap() error { return e.error }
+
 func tryAllParsers(pp []pars.Parser) pars.Parser {
 	return func(state *pars.State, result *pars.Result) (err error) {
 		for _, p := range pp {
@@ -363,6 +369,10 @@ func tryAllParsers(pp []pars.Parser) pars.Parser {
 			if err == nil {
 				state.Drop()
 				return nil
+			}
+			if _, ok := err.(fieldError); ok {
+				state.Drop()
+				return err
 			}
 			if !state.Pushed() {
 				return err
